@@ -556,6 +556,8 @@ def special_configs(name, rname, cls, kw0, chk, gw):
     if cls == "Angle":
         for b in ANGLE_BOUNDS.get(name, [(0.0, 2 * PI)]):
             variants = [({}, False), ({}, True)]
+            if name == "angle" and b == (0.0, PI):
+                variants += [({"prior": "sine"}, False), ({"prior": "sine"}, True)]
             if not quick or name == "angle":
                 variants += [({"prior": "uniform"}, False), ({"scale": 2.0}, False)] if name == "angle" else []
             for extra, radial in variants:
@@ -587,6 +589,7 @@ def special_configs(name, rname, cls, kw0, chk, gw):
     if cls == "ToCartesian":
         for b in [(0.0, 1.0), (-3.7, 12.9), (1e-3, 250.0)][: (2 if quick else 3)]:
             for extra, cr in [({}, False), ({"mode": "duplicate"}, False), ({"mode": "half"}, False), ({"scale": 2.0}, False),
+                              ({"prior": "uniform", "mode": "half"}, False),
                               ({}, True), ({"mode": "nope"}, False)]:
                 kw = dict(kw0, **extra)
                 names = ["x", "y"]
@@ -713,6 +716,46 @@ def direct_predicate(c, r):
                 fails.append(("prime-support-probe",
                               f"prime point {pn} = {r['probe_xp'][pn][k]!r}: prime prior {v!r} but its pre-image {par} = {xb!r} is "
                               f"{'inside' if inside else 'outside'} the prior box [{a}, {b}]", None))
+    # prime prior of Angle / ToCartesian / AnglePair: x_prime_log_prior - (log prior - log_J) constant within the configuration
+    if r.get("pp_blocks") and "_registry" in c:
+        try:
+            spec = pp_blocks_spec(c, r)
+        except Exception:
+            spec = []
+        radii = c.get("radii") or [1.0]
+        skipr = set(c.get("skip_rows") or [])
+        for bd, kw, ent in spec:
+            if ent.get("lj") is None or len(ent["lj"]) != n:
+                continue
+            prior = kw.get("prior")
+            ds = []
+            for i in range(n):
+                if i in skipr or not finite(ent["pp"][i]) or not finite(ent["lj"][i]):
+                    continue
+                vals = [c["points"][i][c["names"].index(p)] if p in c["names"] else radii[i % len(radii)] for p in bd["parameters"]]
+                rad = vals[-1]
+                if rad <= 0:
+                    continue
+                if bd["class"] in ("Angle", "ToCartesian"):
+                    logp = math.log(rad) - rad * rad / 2
+                    if prior == "sine":
+                        sv = math.sin(vals[0] * bd["scale"])
+                        if sv < 1e-6:
+                            continue
+                        logp += math.log(sv / 2)
+                else:
+                    hz = math.sin(vals[1]) if bd["convention"] == "az-zen" else math.cos(vals[1])
+                    if hz < 1e-6:
+                        continue
+                    logp = math.log(hz / 2) + 2 * math.log(rad) - rad * rad / 2
+                ds.append((ent["pp"][i] - (logp - ent["lj"][i]), i, abs(logp) + abs(ent["lj"][i]) + abs(ent["pp"][i])))
+            if len(ds) >= 2:
+                lo_, hi_ = min(ds), max(ds)
+                tol = 1e-9 * (1 + max(d[2] for d in ds))
+                if hi_[0] - lo_[0] > tol:
+                    fails.append(("prime-prior-not-constant",
+                                  f"{bd['class']}(prior={prior!r}): x_prime_log_prior - (log prior - log_J) is {lo_[0]:.9g} at "
+                                  f"{c['points'][lo_[1]]} but {hi_[0]:.9g} at {c['points'][hi_[1]]} (must be one constant; tolerance {tol:.3g})", hi_[1]))
     fd = r.get("fd_logdet")
     if fd:
         ds = [(f - r["ljb"][j], j) for f, j in zip(fd, c["fd_rows"]) if finite(f) and finite(r["ljb"][j])]
@@ -989,11 +1032,12 @@ def run_coq_batches(chk, items, batch_pts=350, par=8):
             txt += f"Definition case_{k} : list block * list obs := ({blocks}, {cL(obs)}).\n"
             txt += f"Eval vm_compute in (check_case2 case_{k}).\n"
             for e in extra:
-                txt += f"Eval vm_compute in [{e}].\n"
+                txt += f"Eval vm_compute in [{e[1] if isinstance(e, tuple) else e}].\n"
         return b, chk.coq_run(f"cases_{bi}", txt, timeout=1500)
 
     results, errors, prime_results = {}, [], {}
     witnesses = run_coq_batches.witnesses = {}
+    pp_results = run_coq_batches.pp_results = {}
     with ThreadPoolExecutor(max_workers=par) as ex:
         for b, (ok, evals, err) in ex.map(work, list(enumerate(batches))):
             if not ok or len(evals) != sum(1 + len(it[3]) for it in b):
@@ -1006,8 +1050,11 @@ def run_coq_batches(chk, items, batch_pts=350, par=8):
                 if len(res) >= 2:
                     witnesses[idx] = (res[-2], res[-1])
                     res = res[:-2]
-                for _ in extra:
-                    prime_results.setdefault(idx, []).extend(parse_ll(evals[pos]))
+                for e in extra:
+                    if isinstance(e, tuple):
+                        pp_results[idx] = (parse_ll(evals[pos]), e[2])
+                    else:
+                        prime_results.setdefault(idx, []).extend(parse_ll(evals[pos]))
                     pos += 1
                 if len(res) != len(obs):
                     errors.append(f"case {idx}: {len(res)} verdicts for {len(obs)} points: {evals[pos - 1][:200]}")
@@ -1035,6 +1082,78 @@ def prime_bound_evals(c, r):
             lo, hi = bd["prime_prior_bounds"][pp]
             out.append(f"check_prime_bounds {rtb_block(kw, p, c['bounds'][p], edge, upd)} {flc(lo)} {flc(hi)}")
     return out
+
+
+PP_CLASSES = ("Angle", "ToCartesian", "AnglePair")
+
+
+def pp_blocks_spec(c, r):
+    """offering Angle / ToCartesian / AnglePair blocks: [(block description, kwargs, child entry)]"""
+    out = []
+    for ent in r.get("pp_blocks") or []:
+        if ent["class"] not in PP_CLASSES:
+            continue
+        bd = next((b for b in r["blocks"] if b["parameters"] == ent["parameters"]), None)
+        if bd is None:
+            continue
+        out.append((bd, block_kwargs(c, bd), ent))
+    return out
+
+
+def pp_rows(c, r, spec):
+    """usable output rows and, per row, the input values of every offering block (angle(s), radius)"""
+    n, m = r["n_in"], r["n_out"]
+    radii = c.get("radii") or [1.0]
+    skip = set(c.get("skip_rows") or [])
+    rows = []
+    for j in range(m):
+        i = j % n
+        if i in skip:
+            continue
+        tot, ok, vals = 0.0, True, []
+        for bd, kw, ent in spec:
+            v = ent["pp"][j]
+            if not finite(v):
+                ok = False
+                break
+            tot += v
+            for p in bd["parameters"]:
+                vals.append(c["points"][i][c["names"].index(p)] if p in c["names"] else radii[i % len(radii)])
+        if ok:
+            rows.append((j, i, vals, tot))
+    return rows
+
+
+def prime_prior_evals(c, r):
+    """Coq term: offset witness of the reported prime prior against the enclosure of log p(x) - log_J."""
+    spec = pp_blocks_spec(c, r)
+    if not spec:
+        return []
+    terms, pos = [], 0
+    for bd, kw, ent in spec:
+        prior = kw.get("prior")
+        k = len(bd["parameters"])
+        if bd["class"] in ("Angle", "ToCartesian"):
+            if prior == "uniform":
+                terms.append(f"(pp_polar_uniform (V {pos + 1}))")
+            elif prior == "sine" and bd["class"] == "Angle":
+                terms.append(f"(pp_polar_sine (V {pos}) (V {pos + 1}) {Kd(float(bd['scale']))})")
+            else:
+                return []
+        elif bd["class"] == "AnglePair" and prior == "isotropic":
+            terms.append(f"(pp_sphere {cB(bd['convention'] == 'az-zen')} (V {pos + 1}) (V {pos + 2}))")
+        else:
+            return []
+        pos += k
+    e = terms[0]
+    for t in terms[1:]:
+        e = f"(Rnd (Add {e} {t}))"
+    rows = pp_rows(c, r, spec)
+    if len(rows) < 2:
+        return []
+    rtxt = cL(f"({cL(dy(v) for v in vals)}, {flc(tot)})" for _, _, vals, tot in rows)
+    return [("pp", f"check_prime_prior {e} {rtxt}", {"expr": e, "rows": [(j, i) for j, i, _, _ in rows], "rtxt": [f"({cL(dy(v) for v in vals)}, {flc(tot)})" for _, _, vals, tot in rows],
+                                                       "reported": [tot for _, _, _, tot in rows]})]
 
 
 def function_cases(chk):
@@ -1205,6 +1324,13 @@ def tie_a(chk, reg, sigs, rf):
                 bad.append(f"{table}[{name}] -> unknown class {cls}")
             elif set(kw) - known_cls[cls]:
                 bad.append(f"{table}[{name}]: keyword(s) {sorted(set(kw) - known_cls[cls])} not in the model")
+    try:
+        pf = set(c07_registry.prior_functions())
+    except Exception as e:
+        pf = {f"<declined: {e}>"}
+    known_pf = {"log_uniform_prior", "log_2d_cartesian_prior", "log_2d_cartesian_prior_sine", "log_3d_cartesian_prior"}
+    if pf - known_pf:
+        bad.append(f"nessai/priors.py has prime-prior functions without a model: {sorted(pf - known_pf)}")
     if set(rf) - {"logit", "log", "exp"}:
         bad.append(f"rescaling_functions has names without a model: {sorted(set(rf) - {'logit', 'log', 'exp'})}")
     if not reg.get("gw_includes_default", False):
@@ -1274,7 +1400,7 @@ def decide(chk, cfgs, res):
         obs, rowids = observations(c, r, specs)
         rowmap[idx] = rowids
         chk.count("rows-not-in-correspondence(singular radius / pole / angle-wrap region)", r["n_out"] - len(obs))
-        items.append((idx, cL(terms), obs, prime_bound_evals(c, r)))
+        items.append((idx, cL(terms), obs, prime_bound_evals(c, r) + prime_prior_evals(c, r)))
         n_points += len(obs)
     results, errors, prime_results = run_coq_batches(chk, items)
     chk.oblige(f"correspondence batches evaluated in Coq ({len(items)} configurations, {n_points} points)", "correspondence",
@@ -1328,6 +1454,31 @@ def decide(chk, cfgs, res):
                       "enclosures(forward, inverse) at the two points": encl, "point_index": ia})
     for kkey, cnt in per_key.items():
         chk.count(f"jacobian-offset witnesses:{kkey[0]}:{kkey[1]}", cnt)
+    ppr = getattr(run_coq_batches, "pp_results", {})
+    pp_bad = 0
+    for idx, (wl, meta_pp) in sorted(ppr.items(), key=lambda kv: str(kv[0])):
+        w = wl[0] if wl else []
+        if len(w) != 2 or not isinstance(idx, int):
+            continue
+        pp_bad += 1
+        c, r = cfgs[idx], res[idx]
+        (ja, ia), (jb, ib) = meta_pp["rows"][w[0]], meta_pp["rows"][w[1]]
+        encl = ""
+        if pp_bad <= 2:
+            txt = COQ_HDR + f"Eval vm_compute in (prime_prior_enclosures {meta_pp['expr']} [{meta_pp['rtxt'][w[0]]}; {meta_pp['rtxt'][w[1]]}]).\n"
+            ok, evals, err = chk.coq_run(f"ppwitness_{idx}", txt, timeout=300)
+            encl = pretty_encl(evals[0]) if ok and evals else ""
+        if pp_bad <= 4:
+            chk.fail(f"C07:{c.get('cls', '?')}:prime-prior-offset-not-constant",
+                     f"{c['label']}: the offered x_prime_log_prior minus (log prior - log_J) (proven enclosure at the exact inputs) is not "
+                     f"one constant: point {c['points'][ia]} reports {meta_pp['reported'][w[0]]!r}, point {c['points'][ib]} reports "
+                     f"{meta_pp['reported'][w[1]]!r}; the two offset intervals are separated. enclosures of log p - log_J at the two points: {encl}",
+                     {"config": {k: v for k, v in c.items() if not k.startswith('_') and k not in ("neighbours", "outside")},
+                      "rows": [ia, ib], "reported": [meta_pp["reported"][w[0]], meta_pp["reported"][w[1]]],
+                      "enclosures of log p - log_J": encl, "point_index": ia})
+    chk.oblige(f"correspondence: offered prime priors of Angle / ToCartesian / AnglePair = log prior - log_J + one constant per "
+               f"configuration (offset witness over {len(ppr)} configurations)", "correspondence", pp_bad == 0,
+               f"{pp_bad} configurations with separated offsets")
     for k in range(4):
         detail = ""
         if bad[k]:
@@ -1524,8 +1675,23 @@ def replay_jacobian(c, rp):
     return 0
 
 
+def ensure_registry(c):
+    if "_registry" in c:
+        return
+    import c07_registry
+    reg = c07_registry.registry()
+    c["_registry"] = reg["default_reparameterisations"]
+    c["_registry_gw"] = dict(reg["default_gw"], **reg["default_reparameterisations"])
+    try:
+        c["_aliases"] = c07_registry.gw_aliases()
+    except Exception:
+        c["_aliases"] = {}
+
+
 def replay(data):
     rp = data["replay"]
+    if "config" in rp:
+        ensure_registry(rp["config"])
     if "function" in rp:
         r = subprocess.run([common.PY, os.path.join(common.VERIF, "harness", "c07_child.py")], input=json.dumps([rp["function"]]),
                            capture_output=True, text=True, env=common.child_env())
